@@ -1,0 +1,13 @@
+//go:build verif
+
+package lossy
+
+// Verification hook for the VP8 frame assembler of encode_syntax.go (property
+// C02). Compiled only with the build tag "verif"; it adds no behaviour of its own.
+
+// VerifAssembleFrame is (*VP8Encoder).assembleFrame on an encoder that carries
+// only the picture dimensions (the only fields assembleFrame reads).
+func VerifAssembleFrame(width, height int, part0 []byte, tokenParts [][]byte) []byte {
+	enc := &VP8Encoder{width: width, height: height}
+	return enc.assembleFrame(part0, tokenParts)
+}
